@@ -1,4 +1,5 @@
 """C15 — DNS routing: longest matching suffix wins regardless of order and case (structural clauses)."""
+import re
 from ..util import *
 from ..prov import strip, norm, show, subterms
 from ..cfg import cfg_of
@@ -265,6 +266,17 @@ def run(ctx):
         for bb, idx, s in body.stmts():
             if "rv" in s and len(s["p"]) == 1 and "Option<usize>" in body.local_ty(s["p"][0]) and cfg.dominates(sbb, bb):
                 repl.append(bb)
+        # the best route and the suffix it was chosen for are replaced together: a later candidate is compared with the suffix of the
+        # route that is currently best, not with a suffix that was best some replacements ago
+        idx_sets = [bb for bb, idx, s_ in body.stmts() if s_.get("rv") and len(s_["p"]) == 1 and s_["rv"]["k"] == "agg" and s_["rv"].get("variant") == "Some" and
+                    "Option<usize>" in body.local_ty(s_["p"][0]) and any(bb in l for l in loops)]
+        suf_sets = [bb for bb, idx, s_ in body.stmts() if s_.get("rv") and len(s_["p"]) == 1 and s_["rv"]["k"] == "agg" and s_["rv"].get("variant") == "Some" and
+                    re.search(r"Option<&[^<>]*Domain>", body.local_ty(s_["p"][0])) and any(bb in l for l in loops)]
+        if idx_sets and suf_sets:
+            lonely = [bb for bb in idx_sets if not any(cfg.dominates(bb, o) or cfg.dominates(o, bb) for o in suf_sets)] + \
+                     [bb for bb in suf_sets if not any(cfg.dominates(bb, o) or cfg.dominates(o, bb) for o in idx_sets)]
+            ctx.check(not lonely and len(idx_sets) == len(suf_sets), "R2", "best-route-and-its-suffix-are-replaced-together", ctx.where(body),
+                      "the route index is replaced %d time(s) and the suffix kept for comparison %d time(s)" % (len(idx_sets), len(suf_sets)))
         okk = ordv == "Greater" and best_first and repl and all(edge_dominated(cfg, te, bb) for bb in repl)
         if not okk and ordv == "Greater" and best_first:
             # the same fact without the nesting: every assignment of Some(..) to a best-so-far variable is reached only through the
@@ -481,6 +493,13 @@ def _r6(ctx, ew):
         cmp_blocks = [bb for bb, tm in b.calls() if (callee_name(tm) or "").rsplit("::", 1)[-1] in ("all", "zip", "eq", "eq_ignore_ascii_case")]
         if cmp_blocks and all(edge_dominated(cfg, good, bb) for bb in cmp_blocks):
             guarded = True
+        # ... and exactly that: a name with as many labels as the suffix (the suffix itself, the root against the empty suffix) is
+        # compared too.  len(self) >= len(other) / len(other) <= len(self) admit equality; the strict forms do not.
+        op = d[1] if self_first else {"Ge": "Le", "Le": "Ge", "Gt": "Lt", "Lt": "Gt"}[d[1]]          # len(self) op len(other)
+        on_true = good is te or good == te
+        admits_equal = (on_true and d[1] in ("Ge", "Le")) or (not on_true and d[1] in ("Gt", "Lt"))
+        ctx.check(admits_equal, "R6", "a-name-equal-to-the-suffix-matches", ctx.where(b),
+                  "the length guard is len(name) %s len(suffix) on the comparing edge: a name with exactly the suffix's labels must be compared, not refused" % op)
     zip_only = any(n.rsplit("::", 1)[-1] == "zip" for n in names)
     ctx.check(guarded, "R6", "shorter-name-never-matches" if guarded else "shorter-name-can-match:%s" % ("zip-stops-at-shorter-list" if zip_only else "no-length-guard"),
               ctx.where(b),
